@@ -10,6 +10,7 @@ package main
 import (
 	"fmt"
 	"go/ast"
+	"go/token"
 	"strings"
 )
 
@@ -165,10 +166,483 @@ func genC12(c *Ctx) {
 		}
 		return "false"
 	}
-	src := "/-! GENERATED by go/extract (c12.go) from /repo's working tree: index/snapshot.go (readVarLenString,\nreadSegmentSnapshot, readFromVersion1, readN) and index/writer.go (loadSnapshot). Do not edit. -/\nnamespace BlugeGen.C12\n\n" +
+	scriptSrc, scripts := c12Scripts(c, pkg)
+	lengthChecked := c12LengthChecked(c, scripts)
+	src := "/-! GENERATED by go/extract (c12.go) from /repo's working tree: index/snapshot.go (WriteTo, recordSegment,\nwriteVarLenString, ReadFrom, readFromVersion1, readSegmentSnapshot, readVarLenString, readN), index/count.go\n(countHashWriter.Write, countHashReader.Read) and index/writer.go (loadSnapshot). Do not edit. -/\nnamespace BlugeGen.C12\n\n" +
 		"/-- length-prefixed fields are read by `readN` (bounded steps, full reads), the version by `io.ReadFull`,\n`readVarLenString` tolerates `io.EOF` from `Peek` -/\ndef boundedReads : Bool := " + b(bounded) + "\n\n" +
 		"/-- the segment loop counts in `uint64` (not `int(numSegments)`) -/\ndef uintLoop : Bool := " + b(uintLoop) + "\n\n" +
-		"/-- `loadSnapshot` copies the CRC bytes before it closes the item -/\ndef crcCopy : Bool := " + b(crcCopy) + "\n\nend BlugeGen.C12\n"
+		"/-- `loadSnapshot` copies the CRC bytes before it closes the item -/\ndef crcCopy : Bool := " + b(crcCopy) + "\n\n" +
+		"/-- every `binary.Uvarint` result is checked for `n <= 0`, and `loadSnapshot` compares the byte count\n`ReadFrom` returns with `data.Len() - crcWidth` -/\ndef lengthChecked : Bool := " + b(lengthChecked) + "\n\n" +
+		scriptSrc + "end BlugeGen.C12\n"
 	c.WriteLean("C12", src)
-	c.Summary["facts"] = fmt.Sprintf("boundedReads=%v uintLoop=%v crcCopy=%v", bounded, uintLoop, crcCopy)
+	c.Summary["facts"] = fmt.Sprintf("boundedReads=%v uintLoop=%v crcCopy=%v lengthChecked=%v", bounded, uintLoop, crcCopy, lengthChecked)
+}
+
+// ---------------------------------------------------------------------------------------------------------
+// Call scripts. Every statement of the codec functions, in source order, as one normalised line:
+//   * `:=` and `=` are both written `=`; `var x T` without a value is dropped; whitespace is normalised;
+//   * package-level integer constants of package index are replaced by their value
+//     (blugeSnapshotFormatVersion -> 1, crcWidth -> 4, readNChunk -> 4096);
+//   * `fmt.Errorf(...)` is written `error`;
+//   * `if err != nil { return …err… }` after the statement that set err is folded into the suffix ` ?` of that
+//     statement (` ?eof-ok` for `err != nil && err != io.EOF`); statements of the branch in front of the
+//     return are kept: ` ?[stmt; stmt]`;
+//   * blocks are written `for … {` / `if … {` / `} else {` / `}` on lines of their own.
+// A statement or expression form outside this list makes the generator REFUSE.
+
+type c12n struct {
+	c      *Ctx
+	pkg    *Pkg
+	fn     string
+	consts map[string]string
+	lines  []string
+}
+
+func (x *c12n) refuse(n ast.Node, why string) {
+	x.c.Refuse("%s: %s: `%s`", x.fn, why, strings.Join(strings.Fields(x.pkg.Src(n)), " "))
+}
+
+func c12Consts(pkg *Pkg) map[string]string {
+	raw := map[string]ast.Expr{}
+	for _, f := range pkg.Files {
+		for _, d := range f.Decls {
+			gd, ok := d.(*ast.GenDecl)
+			if !ok || gd.Tok != token.CONST {
+				continue
+			}
+			for _, sp := range gd.Specs {
+				vs, ok := sp.(*ast.ValueSpec)
+				if !ok || len(vs.Names) != len(vs.Values) {
+					continue // iota groups and the like: not resolved
+				}
+				for i, n := range vs.Names {
+					raw[n.Name] = vs.Values[i]
+				}
+			}
+		}
+	}
+	out := map[string]string{}
+	var resolve func(name string, depth int) (string, bool)
+	resolve = func(name string, depth int) (string, bool) {
+		e, ok := raw[name]
+		if !ok || depth > 8 {
+			return "", false
+		}
+		switch v := e.(type) {
+		case *ast.BasicLit:
+			if v.Kind == token.INT {
+				return v.Value, true
+			}
+		case *ast.Ident:
+			return resolve(v.Name, depth+1)
+		}
+		return "", false
+	}
+	for n := range raw {
+		if v, ok := resolve(n, 0); ok {
+			out[n] = v
+		}
+	}
+	return out
+}
+
+func (x *c12n) exprs(es []ast.Expr) string {
+	var s []string
+	for _, e := range es {
+		s = append(s, x.expr(e))
+	}
+	return strings.Join(s, ", ")
+}
+
+func (x *c12n) expr(e ast.Expr) string {
+	switch v := e.(type) {
+	case *ast.Ident:
+		if c, ok := x.consts[v.Name]; ok && v.Obj == nil {
+			return c
+		}
+		if c, ok := x.consts[v.Name]; ok && v.Obj != nil && v.Obj.Kind == ast.Con {
+			return c
+		}
+		return v.Name
+	case *ast.BasicLit:
+		return v.Value
+	case *ast.ParenExpr:
+		return "(" + x.expr(v.X) + ")"
+	case *ast.SelectorExpr:
+		return x.expr(v.X) + "." + v.Sel.Name
+	case *ast.StarExpr:
+		return "*" + x.expr(v.X)
+	case *ast.UnaryExpr:
+		if cl, ok := v.X.(*ast.CompositeLit); ok && v.Op == token.AND {
+			return "&" + x.composite(cl)
+		}
+		return v.Op.String() + x.expr(v.X)
+	case *ast.BinaryExpr:
+		return x.expr(v.X) + " " + v.Op.String() + " " + x.expr(v.Y)
+	case *ast.IndexExpr:
+		return x.expr(v.X) + "[" + x.expr(v.Index) + "]"
+	case *ast.SliceExpr:
+		if v.Slice3 {
+			x.refuse(e, "3-index slice")
+		}
+		lo, hi := "", ""
+		if v.Low != nil {
+			lo = x.expr(v.Low)
+		}
+		if v.High != nil {
+			hi = x.expr(v.High)
+		}
+		return x.expr(v.X) + "[" + lo + ":" + hi + "]"
+	case *ast.ArrayType:
+		if v.Len != nil {
+			x.refuse(e, "array type")
+		}
+		return "[]" + x.expr(v.Elt)
+	case *ast.CompositeLit:
+		return x.composite(v)
+	case *ast.CallExpr:
+		if s, ok := v.Fun.(*ast.SelectorExpr); ok {
+			if id, ok := s.X.(*ast.Ident); ok && id.Name == "fmt" && s.Sel.Name == "Errorf" {
+				return "error"
+			}
+		}
+		args := x.exprs(v.Args)
+		if v.Ellipsis.IsValid() {
+			args += "..."
+		}
+		return x.expr(v.Fun) + "(" + args + ")"
+	}
+	x.refuse(e, "expression form not understood")
+	return ""
+}
+
+func (x *c12n) composite(cl *ast.CompositeLit) string {
+	var elts []string
+	for _, el := range cl.Elts {
+		if kv, ok := el.(*ast.KeyValueExpr); ok {
+			elts = append(elts, x.expr(kv.Key)+": "+x.expr(kv.Value))
+		} else {
+			elts = append(elts, x.expr(el))
+		}
+	}
+	t := ""
+	if cl.Type != nil {
+		t = x.expr(cl.Type)
+	}
+	return t + "{" + strings.Join(elts, ", ") + "}"
+}
+
+// simple renders a statement that fits on one line (assignment, call, inc/dec, declaration); ok=false: not one.
+func (x *c12n) simple(st ast.Stmt) (string, bool, bool) {
+	switch v := st.(type) {
+	case *ast.AssignStmt:
+		op := v.Tok.String()
+		if v.Tok == token.DEFINE {
+			op = "="
+		}
+		return x.exprs(v.Lhs) + " " + op + " " + x.exprs(v.Rhs), true, true
+	case *ast.ExprStmt:
+		return x.expr(v.X), true, true
+	case *ast.IncDecStmt:
+		return x.expr(v.X) + v.Tok.String(), true, true
+	case *ast.DeclStmt:
+		gd, ok := v.Decl.(*ast.GenDecl)
+		if !ok || gd.Tok != token.VAR {
+			x.refuse(st, "declaration that is not a var")
+		}
+		var parts []string
+		for _, sp := range gd.Specs {
+			vs := sp.(*ast.ValueSpec)
+			if len(vs.Values) == 0 {
+				continue
+			}
+			var ns []ast.Expr
+			for _, n := range vs.Names {
+				ns = append(ns, n)
+			}
+			parts = append(parts, x.exprs(ns)+" = "+x.exprs(vs.Values))
+		}
+		if len(parts) == 0 {
+			return "", false, true // dropped
+		}
+		return strings.Join(parts, "; "), true, true
+	}
+	return "", false, false
+}
+
+// errCond recognises `e != nil` and `e != nil && e != io.EOF`; returns the variable and the suffix.
+func (x *c12n) errCond(e ast.Expr) (string, string, bool) {
+	neNil := func(e ast.Expr) (string, bool) {
+		b, ok := e.(*ast.BinaryExpr)
+		if !ok || b.Op != token.NEQ {
+			return "", false
+		}
+		id, ok := b.X.(*ast.Ident)
+		r, ok2 := b.Y.(*ast.Ident)
+		if !ok || !ok2 || r.Name != "nil" || !strings.HasPrefix(id.Name, "err") {
+			return "", false
+		}
+		return id.Name, true
+	}
+	if v, ok := neNil(e); ok {
+		return v, " ?", true
+	}
+	if b, ok := e.(*ast.BinaryExpr); ok && b.Op == token.LAND {
+		if v, ok := neNil(b.X); ok {
+			if c, ok := b.Y.(*ast.BinaryExpr); ok && c.Op == token.NEQ && x.expr(c.X) == v && x.expr(c.Y) == "io.EOF" {
+				return v, " ?eof-ok", true
+			}
+		}
+	}
+	return "", "", false
+}
+
+func (x *c12n) mentions(n ast.Node, name string) bool {
+	found := false
+	ast.Inspect(n, func(m ast.Node) bool {
+		if id, ok := m.(*ast.Ident); ok && id.Name == name {
+			found = true
+		}
+		return true
+	})
+	return found
+}
+
+func (x *c12n) emit(depth int, s string) {
+	x.lines = append(x.lines, strings.Repeat("  ", depth)+s)
+}
+
+func (x *c12n) block(list []ast.Stmt, depth int) {
+	lastSet := -1  // index in x.lines of the last simple statement
+	lastVars := "" // its left-hand side
+	for _, st := range list {
+		if s, emitIt, ok := x.simple(st); ok {
+			if emitIt {
+				x.emit(depth, s)
+				lastSet = len(x.lines) - 1
+				lastVars = s
+				if i := strings.Index(s, " = "); i >= 0 {
+					lastVars = s[:i]
+				}
+			}
+			continue
+		}
+		switch v := st.(type) {
+		case *ast.IfStmt:
+			if ev, suffix, ok := x.errCond(v.Cond); ok && v.Else == nil {
+				if v.Init != nil {
+					s, _, ok := x.simple(v.Init)
+					if !ok {
+						x.refuse(v.Init, "if-initialiser")
+					}
+					x.emit(depth, s)
+					lastSet = len(x.lines) - 1
+					lastVars = s
+					if i := strings.Index(s, " = "); i >= 0 {
+						lastVars = s[:i]
+					}
+				}
+				n := len(v.Body.List)
+				var ret *ast.ReturnStmt
+				if n > 0 {
+					ret, _ = v.Body.List[n-1].(*ast.ReturnStmt)
+				}
+				setsErr := false
+				for _, w := range strings.Split(lastVars, ", ") {
+					if w == ev {
+						setsErr = true
+					}
+				}
+				if ret != nil && lastSet == len(x.lines)-1 && setsErr {
+					carries := false
+					for _, r := range ret.Results {
+						if x.mentions(r, ev) {
+							carries = true
+						}
+					}
+					if !carries {
+						x.refuse(ret, "error branch does not return the error")
+					}
+					extra := ""
+					if n > 1 {
+						sub := &c12n{c: x.c, pkg: x.pkg, fn: x.fn, consts: x.consts}
+						sub.block(v.Body.List[:n-1], 0)
+						var parts []string
+						for _, l := range sub.lines {
+							parts = append(parts, strings.TrimSpace(l))
+						}
+						extra = strings.Join(parts, "; ")
+						extra = strings.ReplaceAll(strings.ReplaceAll(extra, "{; ", "{ "), "; }", " }")
+						extra = "[" + extra + "]"
+					}
+					x.lines[lastSet] += suffix + extra
+					lastSet = -1
+					continue
+				}
+			}
+			if v.Init != nil {
+				x.refuse(st, "if with an initialiser that is not an error check")
+			}
+			x.emit(depth, "if "+x.expr(v.Cond)+" {")
+			x.block(v.Body.List, depth+1)
+			switch el := v.Else.(type) {
+			case nil:
+			case *ast.BlockStmt:
+				x.emit(depth, "} else {")
+				x.block(el.List, depth+1)
+			default:
+				x.refuse(st, "else-if chain")
+			}
+			x.emit(depth, "}")
+			lastSet = -1
+		case *ast.ForStmt:
+			h := "for "
+			if v.Init != nil || v.Post != nil {
+				i, p := "", ""
+				if v.Init != nil {
+					s, _, ok := x.simple(v.Init)
+					if !ok {
+						x.refuse(v.Init, "loop initialiser")
+					}
+					i = s
+				}
+				if v.Post != nil {
+					s, _, ok := x.simple(v.Post)
+					if !ok {
+						x.refuse(v.Post, "loop post statement")
+					}
+					p = s
+				}
+				c := ""
+				if v.Cond != nil {
+					c = x.expr(v.Cond)
+				}
+				h += i + "; " + c + "; " + p + " "
+			} else if v.Cond != nil {
+				h += x.expr(v.Cond) + " "
+			}
+			x.emit(depth, h+"{")
+			x.block(v.Body.List, depth+1)
+			x.emit(depth, "}")
+			lastSet = -1
+		case *ast.RangeStmt:
+			k, val := "_", "_"
+			if v.Key != nil {
+				k = x.expr(v.Key)
+			}
+			if v.Value != nil {
+				val = x.expr(v.Value)
+			}
+			x.emit(depth, "for "+k+", "+val+" = range "+x.expr(v.X)+" {")
+			x.block(v.Body.List, depth+1)
+			x.emit(depth, "}")
+			lastSet = -1
+		case *ast.ReturnStmt:
+			x.emit(depth, strings.TrimSpace("return "+x.exprs(v.Results)))
+			lastSet = -1
+		default:
+			x.refuse(st, "statement form not understood")
+		}
+	}
+}
+
+func c12Script(c *Ctx, pkg *Pkg, consts map[string]string, name string, optional bool) []string {
+	fd := pkg.Func(name)
+	if fd == nil || fd.Body == nil {
+		if optional {
+			return nil
+		}
+		c.Refuse("function %s not found in index/", name)
+	}
+	x := &c12n{c: c, pkg: pkg, fn: name, consts: consts}
+	// signature: parameter and result names/types matter for the reading of the body
+	sig := strings.Join(strings.Fields(pkg.Src(fd.Type)), " ")
+	x.emit(0, strings.Replace(sig, "func", "func "+name, 1))
+	x.block(fd.Body.List, 0)
+	return x.lines
+}
+
+func c12Scripts(c *Ctx, pkg *Pkg) (string, map[string][]string) {
+	consts := c12Consts(pkg)
+	var b strings.Builder
+	all := map[string][]string{}
+	def := func(lean, goName, doc string, optional bool) {
+		lines := c12Script(c, pkg, consts, goName, optional)
+		all[lean] = lines
+		b.WriteString("/-- " + doc + " -/\ndef " + lean + " : List String := [")
+		for i, l := range lines {
+			if i > 0 {
+				b.WriteString(",")
+			}
+			b.WriteString("\n  " + LeanStr(l))
+		}
+		b.WriteString("]\n\n")
+		c.Summary["script_"+lean] = len(lines)
+	}
+	def("writeTo", "Snapshot.WriteTo", "call script of `(*Snapshot).WriteTo`", false)
+	def("recordSegment", "recordSegment", "call script of `recordSegment`", false)
+	def("writeVarLenString", "writeVarLenString", "call script of `writeVarLenString`", false)
+	def("readFrom", "Snapshot.ReadFrom", "call script of `(*Snapshot).ReadFrom`", false)
+	def("readFromVersion1", "Snapshot.readFromVersion1", "call script of `readFromVersion1`", false)
+	def("readSegmentSnapshot", "Snapshot.readSegmentSnapshot", "call script of `readSegmentSnapshot`", false)
+	def("readVarLenString", "readVarLenString", "call script of `readVarLenString`", false)
+	def("readN", "readN", "call script of `readN` (`[]` when the function does not exist)", true)
+	def("countHashWriterWrite", "countHashWriter.Write", "`(*countHashWriter).Write`", false)
+	def("countHashReaderRead", "countHashReader.Read", "`(*countHashReader).Read`", false)
+	def("loadSnapshot", "Writer.loadSnapshot", "call script of `(*Writer).loadSnapshot`", false)
+	return b.String(), all
+}
+
+// c12LengthChecked: is every binary.Uvarint result followed by `if n <= 0 { return …error }`, and does
+// loadSnapshot compare the byte count ReadFrom returns with data.Len()-crcWidth? All six or none; else refuse.
+func c12LengthChecked(c *Ctx, scripts map[string][]string) bool {
+	uv, guarded := 0, 0
+	for _, fn := range []string{"readFrom", "readFromVersion1", "readSegmentSnapshot", "readVarLenString"} {
+		ls := scripts[fn]
+		for i, l := range ls {
+			t := strings.TrimSpace(l)
+			if !strings.Contains(t, " = binary.Uvarint(") {
+				continue
+			}
+			uv++
+			// the second result of Uvarint
+			lhs := strings.Split(t[:strings.Index(t, " = ")], ", ")
+			nvar := lhs[len(lhs)-1]
+			if i+2 < len(ls) && strings.TrimSpace(ls[i+1]) == "if "+nvar+" <= 0 {" &&
+				strings.HasPrefix(strings.TrimSpace(ls[i+2]), "return ") && strings.HasSuffix(strings.TrimSpace(ls[i+2]), "error") {
+				guarded++
+			}
+		}
+	}
+	if uv != 5 {
+		c.Refuse("expected 5 binary.Uvarint sites in the decoder, found %d", uv)
+	}
+	ld := scripts["loadSnapshot"]
+	cnt, cmp := false, false
+	for i, l := range ld {
+		t := strings.TrimSpace(l)
+		if strings.HasPrefix(t, "bytesRead, err = snapshot.ReadFrom(dataReader) ?") {
+			cnt = true
+			if i+1 < len(ld) && strings.TrimSpace(ld[i+1]) == "if bytesRead != int64(data.Len() - 4) {" {
+				// the branch must end in `return nil, error`
+				for j := i + 2; j < len(ld); j++ {
+					u := strings.TrimSpace(ld[j])
+					if u == "}" && !strings.HasPrefix(ld[j], "  ") {
+						break
+					}
+					if u == "return nil, error" {
+						cmp = true
+					}
+				}
+			}
+		}
+	}
+	switch {
+	case guarded == 5 && cnt && cmp:
+		return true
+	case guarded == 0 && !cnt && !cmp:
+		return false
+	}
+	c.Refuse("length checks are neither all present nor all absent: %d of 5 Uvarint results checked for n <= 0, loadSnapshot keeps the byte count=%v compares it with the body length=%v", guarded, cnt, cmp)
+	return false
 }
